@@ -586,6 +586,19 @@ func (w *World) Run() {
 	}
 }
 
+// AutoPending reports whether an internal goroutine is currently waiting (as an adopted task) for a hooked mutex.
+//
+//go:norace
+func (w *World) AutoPending() bool {
+	n := int(atomic.LoadInt32(&w.ntasks))
+	for i := 0; i < n; i++ {
+		if t := w.tasks[i]; t.auto && atomic.LoadInt32(&t.state) != stDone {
+			return true
+		}
+	}
+	return false
+}
+
 // Unfinished lists tasks (daemon or not, by flag) that have not finished.
 //
 //go:norace
